@@ -1,6 +1,6 @@
 (* C02 - binary encoding follows the Avro specification (cross-implementation interop). *)
 From AvroV Require Import Base Varint Schema Bytes Names Codec Conforms Layout BinEnc BlockAudit.
-From AvroV Require Import VarintP CodecP SpecP AuditP.
+From AvroV Require Import VarintP CodecP SpecP AuditP PaddedP.
 Open Scope N_scope.
 
 (* Forward: the bytes written for a conforming value are a specification-legal encoding of it
@@ -106,3 +106,28 @@ Proof.
   split; [vm_compute; reflexivity|]. split; [vm_compute; reflexivity|].
   intros [v Hs]. exact (spec_long_no_padding [] None v 0x80 Hs).
 Qed.
+
+(* The laxness is characterised in general, not only by the witness: in ANY input, a terminating byte
+   of a variable-length integer may be replaced by its continuation form followed by k empty groups and
+   a zero byte (PaddedP.padding) without changing what decode_variable reads, as long as the integer
+   stays within ten bytes; so every long whose minimal form is shorter than ten bytes has padded forms
+   and each of them is read as that long.  gen/c02.py generates exactly these forms (and the ones that
+   cross the ten-byte limit) for the implementation. *)
+Theorem C02_decoder_padding_invariant :
+  forall (p : bytes) (b : N) (k : nat) (rest : bytes),
+    Forall cont p -> b < 128 -> (length p + k + 2 <= 10)%nat ->
+    dec_long (p ++ padding b k ++ rest) = dec_long (p ++ b :: rest).
+Proof. exact long_padding_invariant. Qed.
+
+Theorem C02_padded_long_decodes :
+  forall (z : Z) (p : bytes) (b : N) (k : nat) (rest : bytes),
+    in_i64 z = true -> enc_long z = p ++ [b] -> (length p + k + 2 <= 10)%nat ->
+    dec_long (p ++ padding b k ++ rest) = LOk z rest.
+Proof. exact long_padded_decodes. Qed.
+
+Example C02_padding_example :
+  enc_long 150 = [0xAC] ++ [0x02] /\
+  dec_long ([0xAC] ++ padding 0x02 3 ++ [7]) = LOk 150 [7] /\
+  [0xAC] ++ padding 0x02 3 ++ [7] = [0xAC; 0x82; 0x80; 0x80; 0x80; 0x00; 7] /\
+  dec_long [0x80; 0x80; 0x80; 0x80; 0x80; 0x80; 0x80; 0x80; 0x80; 0x80; 0x00] = LErr.
+Proof. repeat split; vm_compute; reflexivity. Qed.
